@@ -468,6 +468,30 @@ def run_ids(res, tier, seed):
         three = {"memory": [b.to_sk_block(x) for x in blks], "bytes": [D.Block.deserialize(x.raw()) for x in blks],
                  "store": [x for x in store.read_blocks_from_disk() if x.height > 0]}
         store.close()
+        # the store once more, as a restarted node finds it after a write that stopped half-way (the disk was full at the k-th SQL
+        # statement and the process died on the error): whatever it returns then is still subject to "id = hash of the encoding"
+        # and "one id, one content"; returning fewer blocks is the store property's business, not this one's
+        path2 = os.path.join(env.fresh_subdir("c07f"), "c.db")
+        with env.quiet():
+            store = BlockStore(path2)
+        half = max(1, len(blks) // 2)
+        try:
+            store.write_blocks_to_disk([b.to_sk_block(x) for x in blks[:half]])
+            real = store.connection
+            store.connection = chainexec.FaultyConnection(real, rnd.randrange(1, 6))
+            try:
+                store.write_blocks_to_disk([b.to_sk_block(x) for x in blks[half:]])
+            except Exception:
+                res.count("ids_store_writes_stopped_half_way")
+            store.connection = real
+            store.close()
+            with env.quiet():
+                store = BlockStore(path2)
+            three["store-after-failed-write"] = [x for x in store.read_blocks_from_disk() if x.height > 0]
+        except Exception as e:
+            res.count("ids_store_after_failed_write_unreadable:" + type(e).__name__)
+        finally:
+            store.close()
         # a fourth way an object comes into being: the wallet signs an UNSIGNED transaction that was itself decoded from bytes
         from skepticoin.wallet import Wallet, sign_transaction
         from vf.keys import KEYS
@@ -493,7 +517,7 @@ def run_ids(res, tier, seed):
         shared = len(set(txids)) != len(txids)
         enc = {}
         for way, lst in three.items():
-            if way == "store" and shared:
+            if way.startswith("store") and shared:
                 res.count("ids_store_comparison_with_a_transaction_id_in_two_blocks")   # (was skipped while C08-F1 was open)
             for blk in lst:
                 first = enc.setdefault(blk.hash(), (way, blk.serialize()))
